@@ -41,6 +41,7 @@ func c06(c *Ctx) (*report.Result, error) {
 	res.RuleDoc["O6.4"] = "every abnormal event ends the loop: from a receive error, a failed Send and an unknown message kind all paths reach return without another iteration"
 	res.RuleDoc["O6.5"] = "no helper goroutine can be stranded: a goroutine that sends on an unbuffered channel created by its parent must not have the parent's only receive sit in a select with another arm"
 	res.RuleDoc["O6.7"] = "proxy shutdown ends open pass-through streams: the forwarder does not watch the proxy lifetime, so in TCP mode the client connection it forwards on must be closed by the lifetime itself - buildTLSTCPClient schedules Close of the connection it creates with context.AfterFunc(lifetime, ..), not behind a GracefulStop (which waits for the very handlers that only the close releases)"
+	res.RuleDoc["O6.8"] = "the relays cannot wedge on the stream tracker: both relay loops update the global StreamTracker once per message, so no critical section of its mutex (or of the stream observer's) re-acquires the same mutex - a recursive RLock deadlocks as soon as a relay's write lock queues in between (same analysis as O20.6)"
 	res.RuleDoc["O6.6"] = "mode dispatch: handleStream reaches forwarder.Run exactly for the default and LCM modes"
 
 	relays := []struct {
@@ -405,6 +406,14 @@ func c06(c *Ctx) (*report.Result, error) {
 	res.Explanation = "SSA of proxy.StreamForwarder.Run / forwardReplicationMessages / forwardAcks / startListener and handleStream: deferred latch-trip and wg.Done cover every exit; every blocking point (relay select, listener hand-off) has the latch as an alternative; value identity between what is received from one side and sent to the other; control flow from every abnormal event to return without re-entering the loop; a pattern rule for helper goroutines that can be stranded on an unbuffered channel; constant dispatch on the shard-count mode. Decides the shutdown wiring and relay faithfulness on every path; does not decide message ordering inside the gRPC libraries or timing."
 	res.Assumptions = []string{"channel.ShutdownOnce.Channel() is closed by Shutdown()", "cancelling the stream context releases a blocked client Recv"}
 	checkClientClosedByLifetime(c, res, "O6.7")
+	if spx, err := c.Prog.SSAPkg("proxy"); err == nil {
+		n := checkReentrancy(c, res, "O6.8", []*ssa.Package{spx}, func(key string) bool {
+			return strings.HasPrefix(key, "ReplicationStreamObserver.") || strings.HasPrefix(key, "StreamTracker.")
+		})
+		if n < 10 {
+			res.Undec("O6.8", "critical sections of the tracker and the observer", "", fmt.Sprintf("%d found", n))
+		}
+	}
 	return res, nil
 }
 
